@@ -911,6 +911,11 @@ impl Store {
                 continue;
             }
 
+            // the index key pads and truncates the d value, so compare the real one
+            if event.tags()?.get_value(b"d") != Some(addr.d.as_slice()) {
+                continue;
+            }
+
             return Ok(Some(event));
         }
 
@@ -1018,7 +1023,9 @@ impl Store {
             // Our index doesn't have Kind embedded, so we have to check it
             let matches = {
                 let event = self.get_event_by_offset(offset)?;
+                // the index key pads and truncates the d value, so compare the real one
                 event.kind() == addr.kind
+                    && event.tags()?.get_value(b"d") == Some(addr.d.as_slice())
             };
 
             if matches {
